@@ -46,8 +46,13 @@ ASSUMPTIONS = [
     'module/class level state; per-connection objects are fingerprinted in the workload as well)',
     'memo tables internal to CPython/stdlib (functools.singledispatch dispatch cache, re pattern cache, decimal '
     'context, which is thread-local) are value-transparent and not enumerated by the static scan',
-    'TatSu parsing happens inside one evaluation step (a fresh BQLParser per parse call); its thread-safety at '
-    'byte-code granularity is exercised only by the free-running smoke test',
+    'TatSu parsing happens inside one evaluation step (a fresh BQLParser per parse call); a module-level parser '
+    'instance (any module-level object of a tatsu class, or any module-level instance whose fingerprint the workload '
+    'changes) is listed as a shared cell by the inventory; parsing in several threads at once is exercised by the '
+    'free-running text-statement stream (4 threads x 8/25 text statements behind a barrier, switch interval 1e-5), '
+    'whose failures are violations but whose passing proves nothing about byte-code level interleavings',
+    'the ledger data reachable from a connection (every directive and posting with its meta dict) is fingerprinted '
+    'after every workload statement (incl. any_meta/entry_meta/getitem/meta queries): queries must not write it',
 ]
 
 # --------------------------------------------------------------------------
@@ -223,11 +228,64 @@ def gen_txs(rng, npost):
     return txs
 
 
-def connection(txs):
-    entries, options, _ = load_ledger(txs)
+LEDGER_META = '''
+2018-01-01 open Assets:A
+2018-01-01 open Assets:B
+2018-01-01 open Income:C
+
+2020-01-05 * "t1"
+  ref: "E1"
+  Assets:A   -10 USD
+  Assets:B    10 USD
+
+2020-01-06 * "t2"
+  ref: "E2"
+  Assets:A  -500 USD
+    ref: "P2"
+  Income:C   500 USD
+
+2020-01-07 * "t3"
+  Assets:A   -20 USD
+  Assets:B    20 USD
+
+2020-01-08 * "t4"
+  ref: "E4"
+  Assets:A   -30 USD
+  Assets:B    30 USD
+
+2021-01-09 * "t5"
+  ref: "E5"
+  Assets:A   -40 USD
+  Assets:B    40 USD
+    ref: "P5"
+'''
+
+
+def connection(txs, fresh=False):
+    """txs: a transaction list (see ledger_text) or the string 'meta' (LEDGER_META). fresh: load the ledger
+    anew, so that nothing (entries, postings, their meta dicts) is shared with any other connection."""
+    if fresh or txs == 'meta':
+        entries, errors, options = loader.load_string(LEDGER_META if txs == 'meta' else ledger_text(txs))
+        if errors:
+            raise HarnessError(f'ledger errors: {errors}')
+    else:
+        entries, options, _ = load_ledger(txs)
     conn = beanquery.Connection()
     impl.bq_beancount.attach(conn, 'beancount:', entries=entries, errors=[], options=options)
     return conn
+
+
+def ledger_fp(conn):
+    """fingerprint of the ledger data reachable from the connection: every directive with its meta dict, every
+    posting with its meta dict (repr of the namedtuples prints all of it), options keys"""
+    import hashlib
+    t = conn.tables.get('entries')
+    entries = getattr(t, 'entries', [])
+    h = hashlib.sha256()
+    for e in entries:
+        h.update(repr(e).encode())
+    h.update(repr(sorted(map(str, getattr(t, 'options', {}) or {}))).encode())
+    return h.hexdigest()
 
 
 # --------------------------------------------------------------------------
@@ -826,6 +884,13 @@ def check_cases(named_cases, schedules_of, tag):
 
 # statements outside the model's language: schedule-driven threads vs serial only (no model side)
 L_IO = [(2019, 4, [2, 1, -3]), (2020, 2, [5, -5]), (2020, 7, [3, 4, -7]), (2021, 3, [7, -7])]
+IMPL_ONLY_META = [
+    # a query using any_meta / 3-argument getitem / entry_meta next to readers of the posting metadata
+    ('any_meta-vs-meta', ["SELECT vyield(year), narration, account, any_meta('ref') AS ref",
+                          "SELECT vyield(year), account, meta('ref') AS ref, meta"]),
+    ('any_meta-vs-count-meta', ["SELECT vyield(day), any_meta('ref'), getitem(meta, 'zz', 'dflt'), entry_meta('ref')",
+                                "SELECT account, count(meta('ref')), count(meta('zz')), count(vyield(day)) GROUP BY account ORDER BY account"]),
+]
 IMPL_ONLY = [
     ('open-vs-plain', ['SELECT vyield(1), vyield(year), balance FROM OPEN ON 2020-06-01',
                        'SELECT vyield(2), vyield(year), balance']),
@@ -859,11 +924,13 @@ def _text_job(conn, text):
 
 
 def _impl_only_unit(args):
-    texts, topo, schedules = args
+    texts, topo, schedules = args[:3]
+    led = args[3] if len(args) > 3 else L_IO
 
     def jobs():
-        shared = connection(L_IO)
-        return [_text_job(shared if topo == 'shared-connection' else connection(L_IO), t) for t in texts]
+        # always freshly loaded ledgers: the serial reference must not share data with the scheduled runs
+        shared = connection(led, fresh=True)
+        return [_text_job(shared if topo == 'shared-connection' else connection(led, fresh=True), t) for t in texts]
     ser = [j() for j in jobs()]
     segs = []
     for i, j in enumerate(jobs()):
@@ -883,19 +950,19 @@ def _impl_only_unit(args):
 def check_impl_only(rng, cap):
     viol, runs, errs = [], 0, 0
     units, meta = [], []
-    for name, texts in IMPL_ONLY:
+    for name, texts, led in [(n, t, 'meta') for n, t in IMPL_ONLY_META] + [(n, t, L_IO) for n, t in IMPL_ONLY]:
         for topo in ('shared-connection', 'connection-per-thread'):
-            ser, segs = _impl_only_unit((texts, topo, None))
+            ser, segs = _impl_only_unit((texts, topo, None, led))
             errs += sum(1 for r in ser if r and r[0] == 'exception')
             if sum(segs) <= 14 and cap >= 3432:
                 scheds = all_interleavings(segs)[0]
             else:
                 scheds = pick_schedules(rng, segs, min(cap, 150))
             for j in range(0, len(scheds), 8):
-                units.append((texts, topo, scheds[j:j + 8]))
-                meta.append((name, topo, texts, scheds[j:j + 8]))
+                units.append((texts, topo, scheds[j:j + 8], led))
+                meta.append((name, topo, texts, scheds[j:j + 8], led))
     outs = core.pmap(_impl_only_unit, units, chunksize=1)
-    for (name, topo, texts, scheds), (ser, res) in zip(meta, outs):
+    for (name, topo, texts, scheds, led), (ser, res) in zip(meta, outs):
         for s, r in zip(scheds, res):
             runs += 1
             if r != ser and not viol:
@@ -903,9 +970,60 @@ def check_impl_only(rng, cap):
                 viol.append(core.Violation('schedule-dependent-result',
                                            f'{topo}: {" || ".join(texts)} schedule={s}: threads return {r} but serial '
                                            f'execution returns {ser}',
-                                           {'texts': texts, 'topology': topo, 'schedule': s, 'serial': ser, 'scheduled': r},
+                                           {'texts': texts, 'topology': topo, 'schedule': s, 'serial': ser, 'scheduled': r,
+                                            'ledger': led},
                                            signature=sig))
     return runs, errs, viol
+
+
+# text statements (parsed inside Cursor.execute, in the threads), free running: SMOKE STREAM, but a failure is a violation
+TEXT_STRESS = [
+    ('SELECT year, day + 1 AS y, balance FROM #postings WHERE number > -100 AND day < 15 ORDER BY 1 DESC, 2', None),
+    ('SELECT year, sum(number) AS s, count(*) AS n, last(balance) FROM #postings GROUP BY year ORDER BY year', None),
+    ('SELECT day FROM #postings WHERE year IN (SELECT year FROM #postings WHERE number > 0) LIMIT 4', None),
+    ('SELECT number FROM #postings WHERE day >= %s AND day <= %s', (2, 7)),
+    ('SELECT number, vyield(year) FROM #postings WHERE year = %(a)s OR year = %(b)s', {'a': 2019, 'b': 2021}),
+]
+
+
+def text_stress(rounds, nthreads=4, per_thread=25):
+    """4 threads x 25 statements given as TEXT behind a barrier, switch interval 1e-5, on one shared connection and
+    on one connection per thread; every execution must give the serial result of its statement."""
+    def ex(conn, q, p):
+        try:
+            return [[str(v) for v in row] for row in conn.execute(q, p).fetchall()]
+        except Exception as e:  # noqa: BLE001
+            return ['exception', type(e).__name__, str(e)[:100]]
+    expected = [ex(connection(L_IO), q, p) for q, p in TEXT_STRESS]
+    problems, runs = [], 0
+    old = sys.getswitchinterval()
+    sys.setswitchinterval(1e-5)
+    try:
+        for _ in range(rounds):
+            for shared in (True, False):
+                conn = connection(L_IO)
+                barrier = threading.Barrier(nthreads)
+                out = []
+
+                def work(i):
+                    c = conn if shared else connection(L_IO)
+                    barrier.wait()
+                    for k in range(per_thread):
+                        j = (i + k) % len(TEXT_STRESS)
+                        r = ex(c, *TEXT_STRESS[j])
+                        if r != expected[j]:
+                            out.append({'thread': i, 'round': k, 'statement': TEXT_STRESS[j][0], 'params': repr(TEXT_STRESS[j][1]),
+                                        'got': r, 'expected': expected[j], 'shared_connection': shared})
+                ths = [threading.Thread(target=work, args=(i,)) for i in range(nthreads)]
+                for t in ths:
+                    t.start()
+                for t in ths:
+                    t.join()
+                runs += nthreads * per_thread
+                problems += out
+    finally:
+        sys.setswitchinterval(old)
+    return runs, problems
 
 
 def free_running(rng, rounds, nthreads=4):
@@ -987,6 +1105,16 @@ def run(tier, rng):
     io_runs, io_errs, v = check_impl_only(rng, 10 if quick else 3432)
     violations += v
     fr_runs, fr_bad = free_running(rng, 3 if quick else 30)
+    ts_runs, ts_bad = text_stress(1, per_thread=8) if quick else text_stress(4, per_thread=25)
+    if ts_bad:
+        b = ts_bad[0]
+        violations.append(core.Violation(
+            'free-running-text-statement',
+            f'{len(ts_bad)} of {ts_runs} executions of text statements from 4 free-running threads '
+            f'({"one shared connection" if b["shared_connection"] else "one connection per thread"}) did not give the '
+            f'serial result, e.g. {b["statement"]!r} {b["params"]} -> {b["got"]} instead of {b["expected"]}',
+            {'text_stress': True, 'failures': ts_bad[:5], 'executions': ts_runs},
+            signature='free-running-text:' + b['statement']))
     for case, res, ser in fr_bad[:1]:
         violations.append(core.Violation('free-running-mismatch', f'free-running threads: {describe(case)} gave {res}, serial {ser}',
                                          {'case': case, 'results': res, 'serial': ser},
@@ -1019,9 +1147,10 @@ def run(tier, rng):
         'exhaustive': exhaustive,
         'all_interleavings_runs': stats3['runs'] if stats3 else 0,
         'free_running_smoke_test_executions': fr_runs,
+        'free_running_text_statement_executions': ts_runs,
         'impl_only_runs_outside_model_language': io_runs,
         'impl_only_statements_raising': io_errs,
-        'impl_only_scenarios': [n for n, _ in IMPL_ONLY],
+        'impl_only_scenarios': [n for n, _ in IMPL_ONLY_META + IMPL_ONLY],
     })
     for k in ('feature_hist', 'yields_per_thread', 'schedules_per_case', 'switches_hist', 'error_results', 'row_results'):
         cov[k] = m[k]
@@ -1049,8 +1178,12 @@ def replay(rec):
         if 'threadsafety' in rec:
             return beanquery.threadsafety == 2
         return not gen_inventory()['cells']
+    if rec.get('text_stress'):
+        return all(not text_stress(1)[1] for _ in range(3))
     if 'texts' in rec:
-        ser, res = _impl_only_unit((rec['texts'], rec['topology'], [rec['schedule']]))
+        led = rec.get('ledger', L_IO)
+        led = led if led == 'meta' else [(y, d, list(a)) for y, d, a in led]
+        ser, res = _impl_only_unit((rec['texts'], rec['topology'], [rec['schedule']], led))
         return res[0] == ser
     case = _fix_case(rec['case'])
     if 'schedule' not in rec:
@@ -1211,10 +1344,11 @@ def _state_items():
                         continue
                     items.append((cq, co, 'class'))
                 continue
-            if callable(o):
+            if isinstance(o, (pytypes.FunctionType, pytypes.BuiltinFunctionType, pytypes.MethodType,
+                              pytypes.MethodWrapperType, pytypes.WrapperDescriptorType)) or _is_cache(o):
                 continue
-            if getattr(o, '__module__', mn) != mn and not isinstance(o, MUTABLE + (tuple, frozenset, int, str, bool, float)):
-                continue
+            if type(o).__module__ in ('typing', 'functools', 'collections.abc', 'abc', 'enum', 're', '__future__'):
+                continue      # typing special forms, partial objects, compiled patterns: immutable
             scan_values(q, o, 3)
             items.append((q, o, 'module'))
     # one name per object: an imported alias (from .query_compile import FUNCTIONS) is not another container
@@ -1229,6 +1363,26 @@ def _state_items():
             drop.update(q for q in names if q != owner[0])
     items = [it for it in items if it[0] not in drop]
     return items, sorted(caches.values(), key=lambda x: x[0])
+
+
+IMMUTABLE = (type(None), bool, int, float, str, bytes, tuple, frozenset, decimal.Decimal, datetime.date)
+
+
+def _stateful_instances(items):
+    """module-level objects created at import that carry instance state (a __dict__ or slots with content) and
+    are neither containers nor immutable values: e.g. a parser instance. (name, class, tatsu?)"""
+    out = []
+    for q, o, kind in items:
+        if kind != 'module' or isinstance(o, MUTABLE + IMMUTABLE + (type,)):
+            continue
+        state = dict(getattr(o, '__dict__', {}) or {})
+        for sl in getattr(type(o), '__slots__', ()) or ():
+            if isinstance(sl, str) and hasattr(o, sl):
+                state[sl] = getattr(o, sl)
+        mro_mods = {c.__module__.split('.')[0] for c in type(o).__mro__}
+        if state or 'tatsu' in mro_mods:
+            out.append((q, _fname(type(o)), 'tatsu' in mro_mods))
+    return out
 
 
 def _snapshot():
@@ -1268,20 +1422,30 @@ WORKLOAD = [
     ('SELECT sum(sum(number))', None),
     ('SELECT a FROM #nosuchtable', None),
     ('SELECT 1 + 1, coalesce(payee, narration), today() > date', None),
+    ("SELECT narration, account, any_meta('ref') AS ref, meta('ref'), entry_meta('ref')", None),
+    ("SELECT account, getitem(meta, 'ref', 'dflt'), getitem(meta, 'nokey', 'dflt'), getitem(entry.meta, 'ref')", None),
+    ("SELECT account, count(meta('ref')), count(any_meta('nokey')) GROUP BY account ORDER BY account", None),
+    ("SELECT meta, entry.meta, tags, links, other_accounts FROM #postings", None),
+    ("SELECT id, type, meta('ref'), meta FROM #entries", None),
 ]
 
 
 def _workload():
     txs = [(2020, 2, [5, -5]), (2020, 7, [3, 4, -7]), (2021, 3, [7, -7])]
     n = 0
-    for rep in range(2):
-        conn = connection(txs)
+    for rep in range(3):
+        conn = connection('meta' if rep == 2 else txs, fresh=True)
         fp0 = _fp(conn.tables, 5, set())
         fp1 = _conn_fp(conn)
-        for q, params in WORKLOAD:
+        fp2 = ledger_fp(conn)
+        prev = '(attach)'
+        for q, params in WORKLOAD + [('SELECT 1', None)]:
             n += 1
             if _conn_fp(conn) != fp1:
-                return n, [f'<connection>.tables after workload statement {n - 1}']
+                return n, [f'<connection>.tables after workload statement: {prev[:70]}']
+            if ledger_fp(conn) != fp2:
+                return n, [f'<connection ledger data: entries/postings/meta dicts> after workload statement: {prev[:70]}']
+            prev = q
             try:
                 cur = conn.cursor()
                 cur.execute(q, params)
@@ -1347,12 +1511,18 @@ def gen_inventory():
     cache_names = {'cache:' + q for q, _ in caches}
     for k in changed:
         if k not in cache_names:
-            cells.append((f'CUnknown "{k}"', k))
+            cells.append((f'CUnknown {cs(k)}', k))
+    instances = _stateful_instances(items)
+    for q, cls, is_tatsu in instances:
+        # parsing machinery keeps the text, position, stacks and memo tables of the parse in progress on the instance
+        if is_tatsu and q not in changed:
+            cells.append((f'CUnknown {cs(q + " : " + cls)}', q))
     containers = [(q, type(o).__name__, len(o), kind) for q, o, kind in items if isinstance(o, MUTABLE)]
     _INV = {
         'modules': _modules(), 'caches': [q for q, _ in caches], 'containers': containers,
         'scalars': len([1 for q, o, k in items if not isinstance(o, MUTABLE)]),
         'snapshot_entries': len(before), 'workload': nwork, 'changed': changed, 'cells': cells,
+        'instances': instances,
         'astw': compile_writes_statement(),
     }
     return _INV
@@ -1391,6 +1561,10 @@ Definition functools_caches : list string :=
 Definition registries : list (string * Z) :=
   %s.
 
+(* module-level objects created at import that carry instance state (name, class); fingerprinted by the diff *)
+Definition module_instances : list (string * string) :=
+  %s.
+
 Definition snapshot_entries : Z := %d.
 Definition workload_statements : Z := %d.
 
@@ -1405,6 +1579,7 @@ Definition query_time_shared_cells : list cell_id :=
 ''' % (clist([cs(m) for m in inv['modules']]),
        clist([cs(q) for q in inv['caches']]),
        '[' + ';\n   '.join(f'({cs(q)}, {n})' for q, t, n in regs) + ']',
+       clist([f'({cs(q)}, {cs(c)})' for q, c, _ in inv['instances']]),
        inv['snapshot_entries'], inv['workload'],
        clist([cs(q) for q in inv['changed']]),
        cbool(inv['astw']),
@@ -1418,5 +1593,7 @@ Definition query_time_shared_cells : list cell_id :=
             'changed_by_workload': inv['changed'], 'query_time_shared_cells': [c for c, _ in inv['cells']],
             'compile_writes_statement': inv['astw'],
             'registries': [q for q, t, n in regs],
+            'module_level_stateful_instances': [f'{q} : {c}' for q, c, _ in inv['instances']],
+            'ledger_data_fingerprinted_after_every_workload_statement': True,
         }
     }
